@@ -45,6 +45,7 @@ static void spy_dump(const char *dir, int slot, const void *p, size_t n) {
    invocation with ONE input buffer size changed by -1 or +1 - on scratch copies of all buffers, so
    the real call is not disturbed - and prints the status; the implementation's own "impl" line in
    between shows whether it was entered.  The three skeletons must give the same verdicts (C04). */
+#define SPY_MAX_BUF ((size_t)1 << 24)
 static int spy_perturb = -1;
 static void spy_perturb_all(ObjectOp op, ObjectArg *a, ObjectCounts k) {
   size_t n = ObjectCounts_numBI(k) + ObjectCounts_numBO(k) + ObjectCounts_numOI(k) + ObjectCounts_numOO(k);
@@ -52,12 +53,14 @@ static void spy_perturb_all(ObjectOp op, ObjectArg *a, ObjectCounts k) {
   for (size_t tgt = 0; tgt < n; tgt++) for (int delta = -1; delta <= 1; delta += 2) {
     /* object slots stay as they are (wherever they sit: the known interleaving of object-bearing
        structs); every other slot is a buffer, input or output, and gets a scratch copy */
-    if (spy_is_object_slot(&a[tgt])) continue;
+    if (spy_is_object_slot(&a[tgt]) || a[tgt].b.size > SPY_MAX_BUF) continue;
     if (delta < 0 && a[tgt].b.size == 0) continue;
     ObjectArg c[60]; void *scratch[60];
     for (size_t i = 0; i < n; i++) {
       scratch[i] = NULL;
-      if (spy_is_object_slot(&a[i])) { c[i] = a[i]; continue; }
+      /* (an output object slot holds whatever the stub left there before the call: a "size" no
+         buffer of this harness has marks such a slot; it is passed on as it is) */
+      if (spy_is_object_slot(&a[i]) || a[i].b.size > SPY_MAX_BUF) { c[i] = a[i]; continue; }
       size_t sz = a[i].b.size;
       scratch[i] = calloc(1, sz + 16);
       if (a[i].b.ptr) memcpy(scratch[i], a[i].b.ptr, sz);
